@@ -25,7 +25,11 @@
 //! with syms = symbol letters of the P0 line in file order (`-` = no matrix), rows = `/`-joined
 //! `label,token,token,...,~<hex of the text after the last count>`, refs as above, po = 0|1 (header
 //! spelled PO), sep = h<hex> of the blanks/tabs written before every symbol and count (the last two
-//! and the row tails are used by the canonical printer only).
+//! and the row tails are used by the canonical printer only); an optional 10th field gives the order of
+//! the lines for the canonical printer: `,`-joined codes A I N D (the AC/ID/NA/DE line), M (matrix
+//! block), X (an XX line), R<i> (the i-th reference of <refs>: RN line, then RX / RT / RL lines for the
+//! pmid / title / link that are present), s<k><hex> (a BA/BS/BF/CO line: k = a|s|f|c, hex = the text after the code);
+//! `-` or absent = the default order A X I X N X D X M X.
 
 use lightmotif::abc::{Alphabet, Dna, Protein, Symbol};
 use lmh::*;
@@ -288,6 +292,26 @@ struct Rec {
     syms: Vec<char>,
     rows: Vec<(String, Vec<String>, String)>, // label, tokens, text after the last count
     refs: Vec<RefRec>,
+    // canonical printer: the lines of the record in file order: "A" "I" "N" "D" (the AC/ID/NA/DE line),
+    // "M" (matrix block), "X" (XX line), "s<k><hex>" (BA/BS/BF/CO line, k = a|s|f|c, hex = text after
+    // the code); empty = the default order A X I X N X D X M X
+    order: Vec<String>,
+}
+
+fn default_order(r: &Rec) -> Vec<String> {
+    let mut v: Vec<String> = vec![];
+    let mut push = |present: bool, c: &str| {
+        if present {
+            v.push(c.to_string());
+            v.push("X".to_string());
+        }
+    };
+    push(r.ac.is_some(), "A");
+    push(r.id.is_some(), "I");
+    push(r.na.is_some(), "N");
+    push(r.de.is_some(), "D");
+    push(!r.syms.is_empty(), "M");
+    v
 }
 
 fn enc_rec(r: &Rec) -> String {
@@ -322,7 +346,7 @@ fn enc_rec(r: &Rec) -> String {
             .join("/")
     };
     format!(
-        "{}:{}:{}:{}:{}:{}:{}:{}:h{}",
+        "{}:{}:{}:{}:{}:{}:{}:{}:h{}:{}",
         opt_hex(r.id.as_deref()),
         opt_hex(r.ac.as_deref()),
         opt_hex(r.na.as_deref()),
@@ -331,7 +355,8 @@ fn enc_rec(r: &Rec) -> String {
         rows,
         refs,
         r.po as u8,
-        hex(r.sep.as_bytes())
+        hex(r.sep.as_bytes()),
+        if r.order.is_empty() { "-".to_string() } else { r.order.join(",") }
     )
 }
 
@@ -376,7 +401,11 @@ fn dec_rec(s: &str) -> Rec {
     };
     let po = p.get(7).map(|x| *x == "1").unwrap_or(false);
     let sep = p.get(8).and_then(|x| opt_unhex(x)).unwrap_or_else(|| "  ".to_string());
-    Rec { id: opt_unhex(p[0]), ac: opt_unhex(p[1]), na: opt_unhex(p[2]), de: opt_unhex(p[3]), po, sep, syms, rows, refs }
+    let order: Vec<String> = match p.get(9) {
+        Some(o) if *o != "-" && !o.is_empty() => o.split(',').map(|x| x.to_string()).collect(),
+        _ => vec![],
+    };
+    Rec { id: opt_unhex(p[0]), ac: opt_unhex(p[1]), na: opt_unhex(p[2]), de: opt_unhex(p[3]), po, sep, syms, rows, refs, order }
 }
 
 /// Canonical printer (mirrored by `print_file` of coq/transfac/TransfacPrint.v).
@@ -386,36 +415,63 @@ fn print_canon(vv: &Option<String>, recs: &[Rec], eol: &str, fnl: bool) -> Vec<u
         s += &format!("VV  {}{}XX{}//{}", v, eol, eol, eol);
     }
     for (k, r) in recs.iter().enumerate() {
-        if let Some(x) = &r.ac {
-            s += &format!("AC  {}{}XX{}", x, eol, eol);
-        }
-        if let Some(x) = &r.id {
-            s += &format!("ID  {}{}XX{}", x, eol, eol);
-        }
-        if let Some(x) = &r.na {
-            s += &format!("NA  {}{}XX{}", x, eol, eol);
-        }
-        if let Some(x) = &r.de {
-            s += &format!("DE  {}{}XX{}", x, eol, eol);
-        }
-        if !r.syms.is_empty() {
-            s += if r.po { "PO" } else { "P0" };
-            for c in &r.syms {
-                s += &r.sep;
-                s.push(*c);
-            }
-            s += eol;
-            for (l, toks, tail) in &r.rows {
-                s += l;
-                for t in toks {
-                    s += &r.sep;
-                    s += t;
+        let order = if r.order.is_empty() { default_order(r) } else { r.order.clone() };
+        for code in &order {
+            match code.as_str() {
+                "A" => s += &format!("AC  {}{}", r.ac.as_deref().unwrap_or(""), eol),
+                "I" => s += &format!("ID  {}{}", r.id.as_deref().unwrap_or(""), eol),
+                "N" => s += &format!("NA  {}{}", r.na.as_deref().unwrap_or(""), eol),
+                "D" => s += &format!("DE  {}{}", r.de.as_deref().unwrap_or(""), eol),
+                "X" => s += &format!("XX{}", eol),
+                "M" => {
+                    s += if r.po { "PO" } else { "P0" };
+                    for c in &r.syms {
+                        s += &r.sep;
+                        s.push(*c);
+                    }
+                    s += eol;
+                    for (l, toks, tail) in &r.rows {
+                        s += l;
+                        for t in toks {
+                            s += &r.sep;
+                            s += t;
+                        }
+                        s += tail;
+                        s += eol;
+                    }
                 }
-                s += tail;
-                s += eol;
+                c if c.starts_with('R') && c.len() >= 2 => {
+                    // reference block number i of the record
+                    if let Some(x) = c[1..].parse::<usize>().ok().and_then(|i| r.refs.get(i)) {
+                        s += &format!("RN  [{}]", x.local);
+                        if let Some(v) = &x.xref {
+                            s += &format!("; {}.", v);
+                        }
+                        s += eol;
+                        if let Some(v) = &x.pmid {
+                            s += &format!("RX  PUBMED: {}.{}", v, eol);
+                        }
+                        if let Some(v) = &x.title {
+                            s += &format!("RT  {}{}", v, eol);
+                        }
+                        if let Some(v) = &x.link {
+                            s += &format!("RL  {}{}", v, eol);
+                        }
+                    }
+                }
+                c if c.starts_with('s') && c.len() >= 2 => {
+                    let tag = match &c[1..2] {
+                        "a" => "BA",
+                        "s" => "BS",
+                        "f" => "BF",
+                        _ => "CO",
+                    };
+                    s += tag;
+                    s += &String::from_utf8(unhex(&c[2..])).unwrap();
+                    s += eol;
+                }
+                _ => {}
             }
-            s += "XX";
-            s += eol;
         }
         s += "//";
         if k + 1 < recs.len() || fnl {
@@ -687,7 +743,7 @@ fn gen_rec(rng: &mut Rng, alpha: &str, maxw: u64, canon: bool) -> Rec {
         }
         r.syms = syms;
     }
-    if !canon {
+    {
         for i in 0..(if rng.chance(1, 3) { 1 + rng.below(3) } else { 0 }) {
             let clean = |s: String| s.replace('.', "_");
             r.refs.push(RefRec {
@@ -698,6 +754,67 @@ fn gen_rec(rng: &mut Rng, alpha: &str, maxw: u64, canon: bool) -> Rec {
                 pmid: if rng.chance(1, 2) { Some(clean(rng.below(100000000).to_string())) } else { None },
             });
         }
+    }
+    if canon {
+        // the lines in random order, XX lines and BA/BS/BF/CO lines sprinkled in
+        let mut items: Vec<String> = vec![];
+        if r.ac.is_some() {
+            items.push("A".to_string());
+        }
+        if r.id.is_some() {
+            items.push("I".to_string());
+        }
+        if r.na.is_some() {
+            items.push("N".to_string());
+        }
+        if r.de.is_some() {
+            items.push("D".to_string());
+        }
+        if !r.syms.is_empty() {
+            items.push("M".to_string());
+        }
+        if rng.chance(2, 3) {
+            for i in (1..items.len()).rev() {
+                let j = rng.below(i as u64 + 1) as usize;
+                items.swap(i, j);
+            }
+        }
+        // reference blocks at random places, in their own order
+        let mut at: Vec<usize> = (0..r.refs.len()).map(|_| rng.below(items.len() as u64 + 1) as usize).collect();
+        at.sort();
+        for (i, pos) in at.iter().enumerate().rev() {
+            items.insert(*pos, format!("R{}", i));
+        }
+        for _ in 0..(if rng.chance(1, 2) { rng.below(4) } else { 0 }) {
+            let k = *rng.pick(&["a", "s", "f", "c"]);
+            let text = if rng.chance(3, 4) { format!("  {}", gen_text(rng, 30)) } else { gen_text(rng, 12) };
+            let pos = rng.below(items.len() as u64 + 1) as usize;
+            items.insert(pos, format!("s{}{}", k, hex(text.as_bytes())));
+        }
+        let xx = rng.below(3); // 0: after every line, 1: random, 2: none
+        let mut order: Vec<String> = vec![];
+        for it in items {
+            order.push(it);
+            if xx == 0 || (xx == 1 && rng.chance(1, 2)) {
+                order.push("X".to_string());
+                if rng.chance(1, 10) {
+                    order.push("X".to_string());
+                }
+            }
+        }
+        if order.is_empty() && rng.chance(1, 2) {
+            order.push("X".to_string());
+        }
+        // an empty order means "default order": keep the encoding unambiguous
+        if order.is_empty() {
+            r.id = None;
+            r.ac = None;
+            r.na = None;
+            r.de = None;
+            r.syms.clear();
+            r.rows.clear();
+        }
+        r.order = order;
     }
     r
 }
